@@ -163,18 +163,21 @@ def levelAfter (fr : List (Key × FrameM)) (filt f d : Nat) : Nat → Except Err
 def inComputeRange (v : Vtf) (k : Key) : Bool :=
   k.1 < v.frameCount && (depthSeq v.flags v.verMinor v.depth).contains k.2.1 && k.2.2 < max v.mipCount 1
 
+/-- one entry of `_frames` after `compute_mipmaps(filter)`. -/
+def computeOne (v : Vtf) (filt : Nat) (p : Key × FrameM) : Except Err (Key × FrameM) :=
+  if inComputeRange v p.1 then
+    match levelAfter v.frames filt p.1.1 p.1.2.1 p.1.2.2 with
+    | .ok fr' => .ok (p.1, fr')
+    | .error e => .error e
+  else .ok p
+
 /-- All frames after `compute_mipmaps(filter)`: every frame in range is replaced by its state
 afterwards (a missing one is a `KeyError`), the others are unchanged. -/
 def computeMips (v : Vtf) (filt : Nat) : Except Err (List (Key × FrameM)) :=
   if (fileKeys (max v.mipCount 1) v.frameCount (depthSeq v.flags v.verMinor v.depth)).all
       (fun k => (lookupFrame v.frames k).isSome) then
-    v.frames.mapM fun (k, fr) =>
-      if inComputeRange v k then
-        match levelAfter v.frames filt k.1 k.2.1 k.2.2 with
-        | .ok fr' => pure (k, fr')
-        | .error e => throw e
-      else pure (k, fr)
-  else throw .key
+    v.frames.mapM (computeOne v filt)
+  else .error .key
 
 /-- one step of the thumbnail loop of `compute_mipmaps`. -/
 def lowStep (frames : List (Key × FrameM)) (side filt : Nat) (low : FrameM) (m : Nat) :
